@@ -113,6 +113,21 @@ def directed():
                  cdeps=['t2']),
             dict(B, kind='exe', name='t4', srcs=[F('s3'), F('s1')],
                  cdeps=['t1'], xdeps=['t2'])])
+    # dual-use libraries: as explicit default, as installed file, linked by
+    # a program (which takes the shared half only), in the implicit set
+    for how in ('default', 'install', 'default+exe', 'implicit'):
+        sc = [dict(B, kind='step', name='t1', ins=[F('d1')], nouts=2),
+              dict(B, kind='dlib', name='t2', srcs=[F('s1'), T('t1')],
+                   ins=[T('t1')]),
+              dict(B, kind='exe', name='t3', srcs=[F('s2')], libs=['t2']),
+              dict(B, kind='exe', name='t4', srcs=[F('s3')])]
+        if how == 'default':
+            sc.append(dict(B, kind='default', name='t5', deps=['t2']))
+        elif how == 'install':
+            sc.append(dict(B, kind='install', name='t5', deps=['t2']))
+        elif how == 'default+exe':
+            sc.append(dict(B, kind='default', name='t5', deps=['t3', 't2']))
+        out.append(sc)
     # always-outdated steps with one and with two outputs, and their consumers
     for nouts in (1, 2):
         out.append([
